@@ -7,3 +7,5 @@ import "github.com/consensys/gnark-crypto/ecc/bw6-761/fr"
 func verifToxicWaste(*toxicWaste) {}
 
 func verifProverRS(_, _ *fr.Element) {}
+
+func verifPostSolve([]fr.Element) {}
